@@ -77,7 +77,6 @@ func nodeChild(args []string) {
 			s.sw.DialSeeds([]string{f[1]})
 			fmt.Println("DIALING")
 		case "quit":
-			s.stop()
 			os.Exit(0)
 		}
 	}
